@@ -4,6 +4,7 @@ package run
 import (
 	"encoding/json"
 	"fmt"
+	"os"
 	"math/rand"
 	"runtime/debug"
 	"sort"
@@ -74,7 +75,7 @@ func Exec(c Config) (res Result) {
 		res.Err = err
 		return
 	}
-	bt := &BlockTimes{R: rand.New(rand.NewSource(c.Seed ^ 0x5eed)), Now: gt}
+	bt := &BlockTimes{R: rand.New(rand.NewSource(c.Seed ^ 0x5eed)), Now: gt, AimWindows: c.Profile.Boundary >= 0.3}
 	now := bt.Next(e.Cur)
 	e.NextBlock(now)
 	refresh := func() { g.Observe(e.Cur, e.App.Header.Time) }
@@ -125,11 +126,18 @@ func Exec(c Config) (res Result) {
 
 // BlockTimes generates forward-moving block times, tilted towards order expirations.
 type BlockTimes struct {
-	R   *rand.Rand
-	Now time.Time
+	R          *rand.Rand
+	Now        time.Time
+	AimWindows bool
 }
 
 func (b *BlockTimes) Next(s *obs.Snapshot) time.Time {
+	if b.AimWindows && b.R.Intn(2) == 0 {
+		if t, ok := b.aimWindow(s); ok {
+			b.Now = t
+			return b.Now
+		}
+	}
 	var d time.Duration
 	switch x := b.R.Intn(100); {
 	case x < 55:
@@ -169,4 +177,42 @@ func (b *BlockTimes) Next(s *obs.Snapshot) time.Time {
 	}
 	b.Now = b.Now.Add(d).UTC()
 	return b.Now
+}
+
+// aimWindow: the moment a basket's start-date window reaches a batch's start date, i.e. a block time
+// with now − window ∈ (start − 1s, start]; only moments within the next 48 hours are considered.
+func (b *BlockTimes) aimWindow(s *obs.Snapshot) (time.Time, bool) {
+	if s == nil {
+		return time.Time{}, false
+	}
+	v := s.V()
+	var cands []time.Time
+	for _, bk := range v.BasketList {
+		c := bk.DateCriteria
+		if c == nil || c.StartDateWindow == nil || c.StartDateWindow.Seconds > 9_000_000_000 {
+			continue
+		}
+		w := c.StartDateWindow.AsDuration()
+		for _, bt := range v.BatchList {
+			if bt.StartDate == nil {
+				continue
+			}
+			t := bt.StartDate.AsTime().Add(w)
+			if t.After(b.Now.Add(time.Second)) && t.Before(b.Now.Add(48*time.Hour)) {
+				cands = append(cands, t)
+			}
+		}
+	}
+	if len(cands) == 0 {
+		return time.Time{}, false
+	}
+	sort.Slice(cands, func(i, j int) bool { return cands[i].Before(cands[j]) })
+	t := cands[0].Add(-[]time.Duration{0, time.Nanosecond, 500 * time.Millisecond, 999 * time.Millisecond}[b.R.Intn(4)])
+	if t.After(b.Now) {
+		if os.Getenv("VERIF_DEBUG") != "" {
+			fmt.Printf("# DEBUG aimWindow: now %s -> %s (%d candidates)\n", b.Now, t, len(cands))
+		}
+		return t.UTC(), true
+	}
+	return time.Time{}, false
 }
